@@ -1273,7 +1273,7 @@ class TermBuilder:
             if len(ts) > 1 and all(x[0] == "tuple" and len(x[1]) == len(ts[0][1]) for x in ts):
                 # tuple results are joined slot by slot
                 t = ("tuple", tuple(phi(x[1][k] for x in ts) for k in range(len(ts[0][1]))))
-            elif self.guarded and len(ts) > 1:
+            elif len(ts) > 1:
                 # several returns of the helper: alternatives keyed by the helper's own path conditions (over the actual arguments)
                 from .guards import PathConditions
                 hp = PathConditions(callee, sub)
@@ -1282,8 +1282,12 @@ class TermBuilder:
                 for k_ in keys[1:]:
                     common &= set(k_)
                 keys = [tuple(l for l in k_ if l not in common) for k_ in keys]
-                if all(keys) and len(set(keys)) == len(keys):
+                if self.guarded and all(keys) and len(set(keys)) == len(keys):
                     t = ("gphi", frozenset(zip(keys, ts)))
+                elif len(ts) == 2 and len(keys[0]) == 1 and len(keys[1]) == 1 and keys[1][0] == neg_test(keys[0][0]):
+                    # 'if c: return A' / 'return B' is the conditional expression 'A if c else B'
+                    c0 = keys[0][0]
+                    t = ("ifexp", c0[1], ts[1], ts[0]) if c0[0] == "not" else ("ifexp", c0, ts[0], ts[1])
                 else:
                     t = phi(ts)
             else:
